@@ -188,6 +188,37 @@ def run(ctx):
                     if abs(float(r3[0]) - r) > 1e-9 * max(abs(r), abs(float(r3[0])), 1e-300):
                         ctx.violation('Dea and dea3 disagree on the first three terms', seq=s[:3], dea=float(r), dea3=float(r3[0]))
                         break
+    # --- several Dea (and EpsAlg) objects alive at the same time, fed in lockstep (one per component of a vector sequence): each must
+    # return, term by term, exactly what it returns when it is the only object in the process
+    for it in range(ctx.budget(30, 300)):
+        k = rng.randint(2, 4)
+        limexp = rng.choice([3, 4, 5, 6, 7, 10])
+        lim2 = [limexp if rng.random() < 0.7 else limexp + rng.choice([0, 1]) for _ in range(k)]       # the same (or the same effective) size
+        ss = [[float(v) for v in gen_seq(rng, 40)[1]] for _ in range(k)]
+        nterm = min(len(q) for q in ss)
+        ctx.tried(('interleaved', tuple(lim2), tuple(tuple(q[:3]) for q in ss)))
+        with warnings.catch_warnings():
+            warnings.simplefilter('ignore')
+            try:
+                alone = []
+                for q, le in zip(ss, lim2):
+                    d1 = Dea(le)
+                    alone.append([tuple(float(v) for v in d1(x)) for x in q[:nterm]])
+                objs = [Dea(le) for le in lim2]
+                together = [[] for _ in range(k)]
+                for t in range(nterm):
+                    for j in range(k):
+                        together[j].append(tuple(float(v) for v in objs[j](ss[j][t])))
+            except Exception as ex:
+                ctx.violation('Dea raised %s with several objects alive' % type(ex).__name__, limexp=lim2, seqs=[q[:nterm] for q in ss])
+                continue
+        for j in range(k):
+            bad = [t for t in range(nterm) if not all((a == b) or (a != a and b != b) for a, b in zip(alone[j][t], together[j][t]))]
+            if bad:
+                ctx.violation('a Dea object fed alternately with other Dea objects returns something else than when it is used alone',
+                              limexp=lim2, object=j, term=bad[0] + 1, seq=ss[j][:bad[0] + 1], alone=list(alone[j][bad[0]]),
+                              interleaved=list(together[j][bad[0]]))
+                break
     ctx.notes.append('worst |EpsAlg - exact table| / bound on this run: %.3g (envelope %g)' % (worst, ENVELOPE))
     ctx.assumptions.append('rounding is not modelled by the theorems; general-k Shanks exactness (k transients from 2k+1 terms) is '
                            'Wynn\'s identity and is only validated by the exact-rational runs (a test, not a theorem); k=1 is proved')
